@@ -2,6 +2,7 @@ package main
 
 import (
 	"fmt"
+	"reflect"
 	"strings"
 )
 
@@ -184,6 +185,43 @@ func oracleNoPanic(c *Ctx, cr *CaseResult) {
 		if strings.HasPrefix(l, "HARNESS-PANIC") {
 			c.Check("build-never-panics", false, "C19:build-panic", map[string]interface{}{"case": cr.Case.Description, "case_file": c.saveCase(cr)}, l, "typed error")
 		}
+	}
+}
+
+// oraclePlainFields (C01): fields that carry no option tag (and nil pointers to structs in which
+// nothing is tagged) are exactly as the program left them, whatever was parsed.
+func oraclePlainFields(c *Ctx, cr *CaseResult) {
+	if cr.Real == nil || cr.Real.dead {
+		return
+	}
+	var walk func(sd *StructDesc, v reflect.Value)
+	walk = func(sd *StructDesc, v reflect.Value) {
+		for i, f := range sd.Fields {
+			fv := v.Field(i)
+			switch {
+			case f.Plain && f.Kind == "p":
+				ok := fv.IsNil()
+				in := map[string]interface{}{"case": cr.Case.Description, "field": f.Name}
+				if !ok {
+					in["case_file"] = c.saveCase(cr)
+				}
+				c.Check("untagged-fields-are-never-modified", ok, "C01:plain-field-modified", in, "the nil pointer field now points to a struct", "still nil")
+			case f.Plain && f.Kind == "v" && f.Exported:
+				ok := fv.IsZero()
+				in := map[string]interface{}{"case": cr.Case.Description, "field": f.Name}
+				if !ok {
+					in["case_file"] = c.saveCase(cr)
+				}
+				c.Check("untagged-fields-are-never-modified", ok, "C01:plain-field-modified", in, fmt.Sprintf("%v", fv.Interface()), "zero value as declared")
+			case f.Kind == "s":
+				walk(f.Sub, fv)
+			case f.Kind == "p" && f.Exported && !fv.IsNil():
+				walk(f.Sub, fv.Elem())
+			}
+		}
+	}
+	for _, rt := range cr.Real.roots {
+		walk(rt.sd, rt.v)
 	}
 }
 
